@@ -42,6 +42,19 @@ def gen_header(rng):
     return Some(",".join(parts))
 
 
+SAME = "http://www.w3.org/2002/07/owl#sameAs"
+OTHER_P = "http://example.org/other"
+
+
+def variants(u, pred):
+    return [
+        ("o", f"SELECT ?o WHERE {{ VALUES ?s {{ <{u}> }} ?s <{pred}> ?o }}"),
+        ("o", f"SELECT ?o WHERE {{ ?s <{pred}> ?o }} VALUES ?s {{ <{u}> }}"),
+        ("s", f"SELECT ?s WHERE {{ VALUES ?o {{ <{u}> }} ?s <{pred}> ?o }}"),
+        ("s", f"SELECT ?s WHERE {{ ?s <{pred}> ?o }} VALUES ?o {{ <{u}> }}"),
+    ]
+
+
 def install_multipart_stub():
     """python-multipart is not installed in this sandbox; FastAPI only checks that it can be imported when a Form
     route is declared.  The stub makes the GET route usable; the POST route cannot be exercised."""
@@ -89,7 +102,10 @@ class C18(Plugin):
                     u = rng.choice(["http://unknown.org/1", "urn:x:1", "http://ex0.org"])
                 queries.append([u, int(rng.random() < 0.8)])
             headers = [gen_header(rng) for _ in range(12)]
-            yield [recs, "", queries, headers, []]
+            # staging: with early < len(recs) the graph and the web apps are created, and the same requests sent once, while the
+            # converter holds only the first `early` records; the other records are then added to the live converter
+            early = rng.choice([len(recs)] * 3 + list(range(len(recs))))
+            yield [recs, "", queries, headers, [], early]
 
     def observe(self, case):
         import rdflib
@@ -101,7 +117,15 @@ class C18(Plugin):
 
         recs, _, queries, headers = case[:4]
         used = {c for r in recs for u in [r[1], *r[3]] for c in u} | {c for q in queries for c in q[0]}
-        c = curies.Converter(qprops.mk_records(recs))
+        early = case[5] if len(case) > 5 else len(recs)
+        c = curies.Converter(qprops.mk_records(recs[:early]))
+        graph = MappingServiceGraph(converter=c)
+        proc = MappingServiceSPARQLProcessor(graph=graph)
+        clients = self.make_clients(c)
+        if early < len(recs):
+            self.warm_up(graph, proc, clients, queries)
+            for r in qprops.mk_records(recs[early:]):
+                c.add_record(r)
         # the property speaks about "the syntactically valid members of expand_all(compress(u))": those two answers of the
         # implementation travel with the case
         renderings = []
@@ -113,19 +137,7 @@ class C18(Plugin):
                 ea = None
             renderings.append(None if ea is None else Some(list(ea)))
             used |= {ch for v in (ea or []) for ch in v}
-        case = [recs, "".join(sorted(ch for ch in used if ch in _invalid_uri_chars)), queries, headers, renderings]
-        graph = MappingServiceGraph(converter=c)
-        proc = MappingServiceSPARQLProcessor(graph=graph)
-        SAME = "http://www.w3.org/2002/07/owl#sameAs"
-        OTHER_P = "http://example.org/other"
-
-        def variants(u, pred):
-            return [
-                ("o", f"SELECT ?o WHERE {{ VALUES ?s {{ <{u}> }} ?s <{pred}> ?o }}"),
-                ("o", f"SELECT ?o WHERE {{ ?s <{pred}> ?o }} VALUES ?s {{ <{u}> }}"),
-                ("s", f"SELECT ?s WHERE {{ VALUES ?o {{ <{u}> }} ?s <{pred}> ?o }}"),
-                ("s", f"SELECT ?s WHERE {{ ?s <{pred}> ?o }} VALUES ?o {{ <{u}> }}"),
-            ]
+        case = [recs, "".join(sorted(ch for ch in used if ch in _invalid_uri_chars)), queries, headers, renderings, early]
 
         qa = []
         web_checked = False
@@ -142,13 +154,13 @@ class C18(Plugin):
                 # the same query over HTTP: Flask GET and POST, FastAPI GET
                 for vi in (0, 2):     # ?s bound and ?o bound
                     var, sparql = variants(u, SAME if is_pred else OTHER_P)[vi]
-                    web = self.web_answers(c, sparql, var)
+                    web = self.web_answers(clients, sparql, var)
                     for name, ans in web:
                         if ans != row[vi]:
                             row[vi] = [f"<{name} differs: {ans}>"]
             qa.append(row)
         ha = []
-        fl = get_flask_mapping_app(c).test_client()
+        fl = clients[0]
         for hi, h in enumerate(headers):
             try:
                 v = handle_header(None if h is None else h.v)
@@ -163,27 +175,47 @@ class C18(Plugin):
             ha.append(None if v is None else Some(v))
         return case, [qa, ha]
 
-    def web_answers(self, c, sparql, var):
+    def make_clients(self, c):
+        """One Flask client and one FastAPI client per case, created when the converter is first available and kept."""
         from curies.mapping_service import get_fastapi_mapping_app, get_flask_mapping_app
 
+        fl = get_flask_mapping_app(c).test_client()
+        try:
+            install_multipart_stub()
+            from fastapi.testclient import TestClient
+
+            fa = TestClient(get_fastapi_mapping_app(c))
+        except Exception as e:
+            fa = e
+        return fl, fa
+
+    def warm_up(self, graph, proc, clients, queries):
+        """The same requests, before the converter is complete; answers and errors are discarded."""
+        for u, is_pred in queries[:1]:
+            for var, sparql in variants(u, SAME if is_pred else OTHER_P):
+                try:
+                    list(graph.query(sparql, processor=proc))
+                except Exception:
+                    pass
+                self.web_answers(clients, sparql, var)
+
+    def web_answers(self, clients, sparql, var):
         out = []
         acc = {"Accept": "application/sparql-results+json"}
+        fl, fa = clients
 
         def parse(text):
             d = json.loads(text)
             return sorted(b[var]["value"] for b in d["results"]["bindings"])
 
-        fl = get_flask_mapping_app(c).test_client()
         try:
             out.append(("flask GET", parse(fl.get("/sparql", query_string={"query": sparql}, headers=acc).get_data(as_text=True))))
             out.append(("flask POST", parse(fl.post("/sparql", data={"query": sparql}, headers=acc).get_data(as_text=True))))
         except Exception as e:
             out.append(("flask", ["<error " + type(e).__name__ + ">"]))
         try:
-            install_multipart_stub()
-            from fastapi.testclient import TestClient
-
-            fa = TestClient(get_fastapi_mapping_app(c))
+            if isinstance(fa, Exception):
+                raise fa
             out.append(("fastapi GET", parse(fa.get("/sparql", params={"query": sparql}, headers=acc).text)))
         except Exception as e:
             out.append(("fastapi", ["<error " + type(e).__name__ + ": " + str(e)[:80] + ">"]))
@@ -194,6 +226,8 @@ class C18(Plugin):
 
     def stats(self, case, obs, acc):
         acc["sparql_queries"] = acc.get("sparql_queries", 0) + 4 * len(obs[0])
+        if len(case) > 5 and case[5] < len(case[0]):
+            acc["cases_with_requests_before_the_converter_was_complete"] = acc.get("cases_with_requests_before_the_converter_was_complete", 0) + 1
         acc["headers"] = acc.get("headers", 0) + len(obs[1])
         h = acc.setdefault("negotiated_hist", {})
         for v in obs[1]:
